@@ -343,3 +343,24 @@ package cluster
 //@   before curateFailedPoints requires arg0 == pointIds && arg1 == deletedIds && arg2 == (successCount == len(col.ShardIds))
 //@   ensures err == nil && ncalls(curateFailedPoints) == 1 && result0 == callres(curateFailedPoints, 1, 0)
 //@   loop 1 invariant rangeindex >= -1
+
+// ---- receiving side of the collection-record sync (property C14) ----
+// The acknowledged count is the number of records actually stored: every record of the request is
+// written under its own key with its own value, a record is counted only after its Put succeeded,
+// and nothing is read, skipped or deleted on the way.
+//@ func (*ClusterNode).RPCSetNodeKeyValue$1
+//@   property C14
+//@   safety -overflow -nil
+//@   allocates
+//@   modifies count
+//@   before Put requires string(arg1) == key && arg2 == value && contains(args.KeyValues, key) && args.KeyValues[key] == value && visited(key)
+//@   ensures result == nil ==> count == old(count) + ncalls(Put)
+//@   ensures count <= old(count) + ncalls(Put)
+//@   ensures ncalls(Delete) == 0 && ncalls(Get) == 1
+//@   loop 1 invariant count == old(count) + ncalls(Put) && ncalls(Delete) == 0 && ncalls(Get) == 1 && lastres(Put) == nil
+
+//@ func (*ClusterNode).RPCSetNodeKeyValue
+//@   property C14
+//@   safety -overflow -nil
+//@   requires c.cfg.RpcRetries >= 1
+//@   ensures old(args.RPCRequestArgs.Dest == c.MyHostname) ==> ncalls(internalRoute) == 0 && ncalls(Write) == 1 && result == callres(Write, 1, 0)
